@@ -2,21 +2,23 @@ from cfg.common import FLOAT_ASSUMPTION, NOTE_COMMON
 from cfg.kernels_pre import regen as regen_kernels, KERNEL_THEOREMS, KERNEL_TRUSTED, KERNEL_ASSUMPTION
 
 PROP = {
-    'anchors': [('utils/mod.rs', 'interp1d'), ('utils/mod.rs', 'interp3d'), ('utils/mod.rs', 'find_interp_indices'), ('utils/mod.rs', 'compute_interp_diff'), ('consist/locomotive/powertrain/fuel_converter.rs', 'solve_energy_consumption'), ('consist/locomotive/powertrain/generator.rs', 'set_pwr_in_req'), ('consist/locomotive/powertrain/electric_drivetrain.rs', 'set_pwr_in_req'), ('consist/locomotive/powertrain/reversible_energy_storage.rs', 'solve_energy_consumption'), ('consist/locomotive/locomotive_model.rs', 'set_pwr_aux'), ('consist/locomotive/conventional_loco.rs', 'solve_energy_consumption')],
+    'anchors': [('utils/mod.rs', 'interp1d'), ('utils/mod.rs', 'interp3d'), ('utils/mod.rs', 'find_interp_indices'), ('utils/mod.rs', 'compute_interp_diff'), ('consist/locomotive/powertrain/fuel_converter.rs', 'solve_energy_consumption'), ('consist/locomotive/powertrain/generator.rs', 'set_pwr_in_req'), ('consist/locomotive/powertrain/electric_drivetrain.rs', 'set_pwr_in_req'), ('consist/locomotive/powertrain/reversible_energy_storage.rs', 'solve_energy_consumption'), ('consist/locomotive/locomotive_model.rs', 'set_pwr_aux'), ('consist/locomotive/conventional_loco.rs', 'solve_energy_consumption'), ('consist/locomotive/hybrid_loco.rs', 'solve_energy_consumption'), ('consist/locomotive/hybrid_loco.rs', 'set_cur_pwr_max_out')],
     'blocks': ['pt'],
     'pre': [regen_kernels],
     'trusted_extra': [KERNEL_TRUSTED],
-    'proof_modules': ['C08', 'Kernels'],
-    'namespaces': ['Altrios.Proofs.C08', 'Altrios.Proofs.InterpL', 'Altrios.Proofs.Kernels'],
+    'proof_modules': ['C08', 'C08Hyb', 'Kernels'],
+    'namespaces': ['Altrios.Proofs.C08', 'Altrios.Proofs.C08Hyb', 'Altrios.Proofs.InterpL', 'Altrios.Proofs.Kernels'],
     'required_theorems': [
         'Altrios.Proofs.InterpL.interp1d_range', 'Altrios.Proofs.InterpL.interp3d_range',
         'Altrios.Proofs.C08.C08_fc_step', 'Altrios.Proofs.C08.C08_gen_step', 'Altrios.Proofs.C08.C08_edrv_step',
         'Altrios.Proofs.C08.C08_res_step', 'Altrios.Proofs.C08.C08_engine_off_fc', 'Altrios.Proofs.C08.C08_engine_off_loco',
         'Altrios.Proofs.C08.C08_loco_step', 'Altrios.Proofs.C08.C08_loco_dyn_zero', 'Altrios.Proofs.C08.C08_walk_monotone',
         'Altrios.Proofs.C08.C08_walk_step',
+        'Altrios.Proofs.C08Hyb.C08_hybrid_step', 'Altrios.Proofs.C08Hyb.C08_hybrid_handoff', 'Altrios.Proofs.C08Hyb.C08_hybrid_res_share_le_max',
+        'Altrios.Proofs.C08Hyb.C08_hybrid_gss_bounds', 'Altrios.Proofs.C08Hyb.C08_hybrid_loco_step', 'Altrios.Proofs.C08Hyb.C08_hybrid_engine_off_counterexample',
     ] + KERNEL_THEOREMS,
     'nontrivial_stats': ['pt.loco.traction', 'pt.loco.braking', 'pt.loco.engine_off_step',
-                         'pt.consist.traction_', 'pt.consist.braking_'],
+                         'pt.consist.traction_', 'pt.consist.braking_', 'pt.hyb.traction', 'pt.hyb.braking', 'pt.hyb.split_changed_by_search'],
     'rule': 'as C01; additionally interp1d / interp3d are called directly on shipped and generated maps with queries at, '
             'between and outside the knots and +-1 ulp, and the fuel converter alone with engine on/off',
     'assumptions': [FLOAT_ASSUMPTION,
@@ -34,5 +36,5 @@ TEXT = {
             'component and both flow directions loss >= 0 and out <= in; dynamic braking is >= 0 and zero unless braking is '
             'demanded; cumulative fuel / loss / dyn-brake energies never decrease along any accepted trace (C08_walk_monotone, '
             'induction); an engine commanded off burns no fuel and draws no aux (C08_engine_off_loco; true of the repaired code, '
-            'fix: e453317).',
+            'fix: e453317). Hybrids (Altrios/Hybrid.lean, Proofs/C08Hyb.lean): the same clauses for all four components of a hybrid in every accepted step FOR EVERY SPLIT the controller or the golden-section search may choose (C08_hybrid_step), the internal hand-offs (C08_hybrid_handoff), battery share <= its published limit (C08_hybrid_res_share_le_max), search interval within [0,1] (C08_hybrid_gss_bounds); the engine-off clause is false of hybrids (C08_hybrid_engine_off_counterexample, known finding C08-hybrid-ignores-engine-off). The search itself (argmin) is an external call, not modelled.',
 }
